@@ -679,7 +679,7 @@ MUTANTS = [
     {'name': 'masks overlap at T_mid', 'expect': ('DATAFLOW.masks', '_get_CpoR_MSE'),
      'edits': [(N, '    high_condition = (T > T_mid)', '    high_condition = (T >= T_mid)')]},
     {'name': 'Nasa T_high from T_mid', 'expect': ('DATAFLOW.bounds', 'Nasa.from_data'),
-     'edits': [(N, '        T_high = max(T)\n        a_low, a_high, T_mid_out', '        T_high = max(T[:-1])\n        a_low, a_high, T_mid_out')]},
+     'edits': [(N, '        T_high = max(T)\n\n        # Find midpoint temperature, and a[0] through a[4] parameters\n        a_low, a_high, T_mid_out', '        T_high = min(T)\n\n        # Find midpoint temperature, and a[0] through a[4] parameters\n        a_low, a_high, T_mid_out')]},
 ]
 EQUIV = [
     {'name': '_fit_SoR rewritten with explicit difference',
